@@ -2,7 +2,7 @@ SPECIFICATION GenSpecX
 CONSTANTS Names <- NamesMB Depth = 3 Vals <- ValsX Sep = 46 Design = "list" Base <- BaseA MaxSlots = 6
   Ends <- Ends0 Strs <- None Seps <- None Asgs <- None Elems <- None
   Configs <- DefaultOnly OptNames <- OptA SecNames <- None Values <- ValsDocX Decos <- Decos1 MaxNodes = 1 MaxDepth = 1
-  Routes <- RAll Cfgs <- CfgTV SingleKinds <- SKBoth PrePaths <- PreC
+  Routes <- RAll Cfgs <- CfgT SingleKinds <- SKBoth PrePaths <- PreC
   LoadKinds <- LoadQ TwoFiles = FALSE EnvCalls <- EnvQ ArgCalls <- ArgsQ ClearLists <- ClearQ
   MsgSets <- MSetQ MsgGets <- MGetQ NodeBases <- BasesQ FputSeps <- None
   MaxOps = 3 MaxArr = 3 SinglesFirst = FALSE Observe = TRUE
